@@ -1,5 +1,6 @@
 """C10 — distributed slack.
-Correspondence: (a) SL_FAC_BUS written by _normalise_slack_weights (and its exceptions) vs C10.Model.normalise;
+Correspondence: (a) SL_FAC_BUS written by _normalise_slack_weights (and its exceptions) vs C10.Model.normalise_net, whose island
+list is computed by the model from the ppc branch rows / bus types (the island list of _subnetworks is compared as well);
 (b) gen rows / bus PD after pfsoln with the widened reference sets vs C10.Model.run_ds_gens (C01 split model);
 (c) res_xward.p_mw (distributed-slack extraction) vs C10.Model.xward_p.
 Oracle: deviation/weight equal for all participating ext_grids, gens and xwards, non-participants keep setpoints,
@@ -9,24 +10,26 @@ import numpy as np
 import pandapower as pp
 from fractions import Fraction
 from vf import coqrun as cq, c01_pf as pf
-from pandapower.pypower.idx_bus import PD, VM, BUS_TYPE, SL_FAC as SL_FAC_BUS
+from pandapower.pypower.idx_bus import PD, VM, VA, BUS_I, BUS_TYPE, SL_FAC as SL_FAC_BUS
 from pandapower.pypower.idx_gen import PG, GEN_BUS, SL_FAC
-from pandapower.pypower.idx_brch import F_BUS, T_BUS, PF
+from pandapower.pypower.idx_brch import F_BUS, T_BUS, PF, BR_STATUS
 
-RULE = ("single-island C01-style nets (2-8 buses, fused sections, second ext_grid) with 1-4 gens (shared buses), 0-2 xwards, slack weights "
+RULE = ("C01-style nets (2-8 buses, fused sections, second ext_grid) with 1-4 gens (shared buses), 0-2 xwards, slack weights "
         "on a 1/8 grid (30 % zero) over ext_grids, gens and xwards, loads/sgens/storages/shunts/wards on shared buses (ZIP loads in 25 %), "
-        "distributed_slack=True; ~6 % malformed (all weights zero, negative sum, two xwards on one bus); "
+        "distributed_slack=True; ~6 % malformed (all weights zero, negative sum, two xwards on one bus); 1 in 8 nets split by an "
+        "out-of-service line (second island with / without its own reference bus and participants, isolated buses), 1 in 12 nets with an "
+        "ext_grid on every bus (all reference buses; half of them re-run without distributed slack = solver bypass of powerflow.py:158); "
         "non-trivial = at least 2 participants with different weights")
 ASSUMPTIONS = [
     "Newton solver is an oracle: |V| and V*conj(Ybus V) are inputs (30 bits); the slack variable itself is not observed, the ratio law is evaluated on the result tables",
-    "island list of _subnetworks(ppc) is an input of the normalisation model (graph search not modelled here)",
+    "the bypass of the solver (every bus a reference bus) only exists without distributed slack (powerflow.py:158); it is exercised on the same nets and compared with the un-widened pfsoln model, the ratio law does not apply there",
     "xward internal branch flow (branch side) and pz*vm^2 are subtracted from res_xward.p_mw before comparing with the extraction model",
 ]
 TRUSTED = ["python re-implementation of the C01 guards G01p/G01q (balance at ZIP buses is left to C01), see vf/c01_pf.py"]
 TOL = 2e-6
 
 
-def _gen_case(rng, force_pair=False):
+def _gen_case(rng, force_pair=False, variant=None):
     net = pf.gen_net(rng, rich=rng.choice([0.5, 0.8]), n_gen=0, two_eg_p=0.25, allow_xward=False,
                      zip_p=0.25 if rng.random() < 0.3 else 0.0)
     buses = [int(b) for b in net.bus.index[net.bus.vn_kv == 20.0]]
@@ -53,7 +56,28 @@ def _gen_case(rng, force_pair=False):
                 pp.create_ext_grid(net, b, vm_pu=vm, va_degree=float(net.ext_grid.va_degree.values[0]), slack_weight=rng.choice(W[1:]))
             else:
                 pp.create_gen(net, b, p_mw=pf.g8(rng, 0, 16), vm_pu=vm, slack=True, slack_weight=rng.choice(W))
-    nx = rng.choice([0, 0, 1, 1, 2])
+    if variant in ("allref", "bypass"):
+        # every bus a reference bus: under distributed slack newtonpf keeps ref[0] and turns the others into PV buses; without
+        # distributed slack the solver is bypassed
+        rep = {int(e): int(b_) for b_, e, et, cl in zip(net.switch.bus.values, net.switch.element.values, net.switch.et.values, net.switch.closed.values)
+               if et == "b" and cl}
+        vab = {}
+        for e_b, e_va, e_vm in zip(net.ext_grid.bus.values, net.ext_grid.va_degree.values, net.ext_grid.vm_pu.values):
+            vab[rep.get(int(e_b), int(e_b))] = float(e_va); vab[int(e_b)] = float(e_va)
+            vmb.setdefault(rep.get(int(e_b), int(e_b)), float(e_vm))
+        for b_, k_ in rep.items():
+            if b_ in vmb:
+                vmb.setdefault(k_, vmb[b_])
+        for b in [int(b) for b in net.bus.index]:
+            if b not in set(int(e) for e in net.ext_grid.bus.values):
+                k_ = rep.get(b, b)
+                vm = vmb.get(b, vmb.get(k_))
+                if vm is None:
+                    vm = rng.choice([1.0, 1.01, 1.02, 0.99])
+                vmb[b] = vm; vmb.setdefault(k_, vm)
+                va = vab.setdefault(k_, float(net.ext_grid.va_degree.values[0]) + rng.choice([0.0, 0.0, 0.5, -0.25]))
+                pp.create_ext_grid(net, b, vm_pu=vm, va_degree=va, slack_weight=rng.choice(W[1:]))
+    nx = rng.choice([0, 0, 1, 1, 2]) if variant not in ("allref", "bypass") else 0
     gen_buses = set(int(b) for b in net.gen.bus.values) | set(int(b) for b in net.ext_grid.bus.values)
     free = [b for b in buses if b not in gen_buses]
     rng.shuffle(free)
@@ -77,14 +101,34 @@ def _gen_case(rng, force_pair=False):
             pp.create_xward(net, b, ps_mw=pf.g8(rng, -4, 8), qs_mvar=pf.g8(rng, -4, 4), pz_mw=pf.g8(rng, 0, 8), qz_mvar=pf.g8(rng, -4, 4),
                             r_ohm=pf.g8(rng, 1, 16), x_ohm=pf.g8(rng, 4, 40), vm_pu=1.0, in_service=ins,
                             slack_weight=rng.choice([0.125, 0.5, 1.0, 2.0]))
-    r = rng.random() if not force_pair else 1.0
+    if variant == "islands" and len(net.line):
+        # split the net: one line out of service; the cut-off part gets its own reference bus (ext_grid / slack gen) or none
+        import pandapower.topology as top
+        uns = []
+        for _ in range(4):
+            li = rng.choice(list(net.line.index))
+            net.line.at[li, "in_service"] = False
+            uns = sorted(int(b) for b in top.unsupplied_buses(net) if int(b) in buses)
+            if uns:
+                break
+            net.line.at[li, "in_service"] = True
+        if uns and rng.random() < 0.75:
+            b = rng.choice(uns)
+            vm = vmb.setdefault(int(b), rng.choice([1.0, 1.01, 1.02]))
+            if rng.random() < 0.6:
+                pp.create_ext_grid(net, b, vm_pu=vm, va_degree=float(net.ext_grid.va_degree.values[0]), slack_weight=rng.choice(W))
+            else:
+                pp.create_gen(net, b, p_mw=pf.g8(rng, 0, 16), vm_pu=vm, slack=True, slack_weight=rng.choice(W))
+    r = rng.random() if not (force_pair or variant) else 1.0
     if r < 0.02:
         net.ext_grid["slack_weight"] = 0.0; net.gen["slack_weight"] = 0.0
         if len(net.xward):
             net.xward["slack_weight"] = 0.0
     elif r < 0.04:
         net.ext_grid["slack_weight"] = -1.0
-    opts = {"numba": False, "distributed_slack": True, "voltage_depend_loads": rng.random() < 0.7}
+    opts = {"numba": False, "distributed_slack": variant != "bypass", "voltage_depend_loads": rng.random() < 0.7}
+    if variant in ("allref", "bypass"):
+        opts["calculate_voltage_angles"] = True
     if force_pair == "ls2g":
         opts["voltage_depend_loads"] = False   # lightsim2grid is only picked without ZIP loads
         net.load["const_z_p_percent"] = 0.0; net.load["const_i_p_percent"] = 0.0
@@ -123,7 +167,11 @@ class _NormSpy:
                     pq = int(ppc["branch"][r, F_BUS].real); pv = int(ppc["branch"][r, T_BUS].real)
                     xws.append((pq, bool(ppc["bus"][pv, BUS_TYPE] != 4)))
             subs = [[int(b_) for b_ in s] for s in _subnetworks(ppc)]
-            rec = dict(gens=gens, xws=xws, subs=subs, nb=ppc["bus"].shape[0],
+            brs = [(int(ppc["branch"][r, F_BUS].real), int(ppc["branch"][r, T_BUS].real), bool(ppc["branch"][r, BR_STATUS].real != 0))
+                   for r in range(ppc["branch"].shape[0])]
+            bt = [int(ppc["bus"][k, BUS_TYPE]) for k in range(ppc["bus"].shape[0])]
+            rec = dict(gens=gens, xws=xws, subs=subs, nb=ppc["bus"].shape[0], brs=brs, bt=bt,
+                       bus_i_is_row=bool(np.all(ppc["bus"][:, BUS_I] == np.arange(ppc["bus"].shape[0]))),
                        masks_agree=[bool(m) for m in xward_mask] == [g_[2] for g_ in gens])
             spy.rec = rec
             try:
@@ -145,11 +193,12 @@ class _NormSpy:
         return False
 
 
-def _norm_term(gens, xws, subs, nb):
-    return "run_normalise %s %s %s %s" % (
+def _norm_term(gens, xws, brs, bt):
+    return "run_normalise_net %s %s %s %s" % (
         cq.lst(["(mkW %s %s %s)" % (cq.nat(b), cq.q(w), cq.b(x)) for b, w, x in gens]),
         cq.lst(["(mkXb %s %s)" % (cq.nat(p), cq.b(o)) for p, o in xws]),
-        cq.lst([cq.lst([cq.nat(b) for b in s]) for s in subs]), cq.nat(nb))
+        cq.lst(["(mkPbr %s %s %s)" % (cq.nat(f), cq.nat(t), cq.b(o)) for f, t, o in brs]),
+        cq.lst([cq.nat(t) for t in bt]))
 
 
 def _xward_inputs(net):
@@ -181,12 +230,95 @@ def _py_G10x(x, xws, others):
     return raw == pd
 
 
-def _one(ctx, rng, T, given=None, sample=False, force_pair=False):
-    net, opts = _gen_case(rng, force_pair) if given is None else given
+class _BypassSpy:
+    """captures the ppci handed to / returned by powerflow._bypass_pf_and_set_results (nothing of it is kept in net._ppc["internal"])"""
+
+    def __init__(self):
+        import pandapower.powerflow as PFM
+        self.PFM, self.orig, self.cap = PFM, PFM._bypass_pf_and_set_results, None
+        spy = self
+
+        def wrapped(ppci, options):
+            from pandapower.pypower.makeYbus import makeYbus
+            from pandapower.pf.ppci_variables import _get_pf_variables_from_ppci
+            vars_ = _get_pf_variables_from_ppci(ppci)
+            ref, ref_gens = vars_[8], vars_[-1]
+            Ybus = makeYbus(ppci["baseMVA"], ppci["bus"], ppci["branch"])[0]
+            out = spy.orig(ppci, options)
+            V = out["bus"][:, VM] * np.exp(1j * np.deg2rad(out["bus"][:, VA]))
+            spy.cap = dict(V=V, Ybus=Ybus, gen=out["gen"].copy(), bus=out["bus"].copy(), ref=np.array(ref), ref_gens=np.array(ref_gens))
+            return out
+
+        self.wrapped = wrapped
+
+    def __enter__(self):
+        self.PFM._bypass_pf_and_set_results = self.wrapped
+        return self
+
+    def __exit__(self, *a):
+        self.PFM._bypass_pf_and_set_results = self.orig
+        return False
+
+
+def _one_bypass(ctx, net, opts, T, case, net_js):
+    """all buses are reference buses and distributed_slack=False: the solver is bypassed, pfsoln runs on the setpoint voltages"""
+    err = None
+    with _BypassSpy() as spy:
+        try:
+            pp.runpp(net, **opts)
+        except pp.LoadflowNotConverged:
+            err = "not_converged"
+        except Exception as e:
+            err = "raise:" + type(e).__name__
+    ctx.count("bypass_outcome_" + (err or "ok"))
+    if err is not None or spy.cap is None:
+        if err is None:
+            ctx.count("bypass_not_taken_net_has_non_reference_buses")
+        ctx.case({"net_sha": hashlib.sha1(net_js.encode()).hexdigest(), "opts": opts}, nontrivial=False)
+        return
+    ctx.count("pf_bypassed_only_reference_buses")
+    I = net._ppc["internal"]
+    for k_ in ("V", "Ybus", "gen", "bus", "ref", "ref_gens"):
+        I[k_] = spy.cap[k_]
+    x = pf.extract(net)
+    pf.impl_res(net, x)
+    g, busr = spy.cap["gen"], spy.cap["bus"]
+    T["byp_t"].append("run_plain_gens %s %s %s %s %s" % (pf.net_term(x), pf.ref_term(x), pf.vs_term(x), pf.ss_term(x), cq.nat(x.nb)))
+    T["byp_p"].append(([float(v) for v in g[:, PG]], [float(busr[k, PD]) for k in range(x.nb)], case))
+    # oracle: every ext_grid bus sits at its setpoint, gens keep p_mw*scaling, nodal balance on the result tables
+    keep_bad = []
+    for p_, i in enumerate(net.ext_grid.index):
+        if net._is_elements["ext_grid"][p_]:
+            b = int(net.ext_grid.bus.values[p_])
+            if abs(float(net.res_bus.vm_pu.at[b]) - float(net.ext_grid.vm_pu.values[p_])) > 1e-9:
+                keep_bad.append("bypass: ext_grid %d bus voltage %r differs from the setpoint %r" % (i, float(net.res_bus.vm_pu.at[b]), float(net.ext_grid.vm_pu.values[p_])))
+    for p_, i in enumerate(net.gen.index):
+        if net._is_elements["gen"][p_] and not bool(net.gen.slack.values[p_]):
+            d = float(net.res_gen.p_mw.at[i]) - float(net.gen.p_mw.values[p_] * net.gen.scaling.values[p_])
+            if abs(d) > 1e-7:
+                keep_bad.append("bypass: gen %d deviates from its setpoint by %.6g MW" % (i, d))
+    E = pf.element_sums_by_bus(net, x)
+    F = pf.branch_flows_by_bus(net, x)
+    bal = []
+    for k in range(x.nb):
+        if k in E or k in F:
+            r_ = E.get(k, 0j) + F.get(k, 0j)
+            if abs(r_.real) > TOL or abs(r_.imag) > 2 * TOL:
+                bal.append((k, r_))
+    T["orc"].append((x, [], [], keep_bad, [], [], case, bal))
+    ctx.case({"net_sha": hashlib.sha1(net_js.encode()).hexdigest(), "opts": opts}, nontrivial=len(net.ext_grid) >= 2)
+
+
+def _one(ctx, rng, T, given=None, sample=False, force_pair=False, variant=None):
+    net, opts = _gen_case(rng, force_pair, variant) if given is None else given
     if force_pair:
         ctx.count("mixed_in_service_xwards_on_one_bus")
+    if variant:
+        ctx.count("variant_" + variant)
     net_js = pp.to_json(net)
     case = {"net": net_js, "opts": opts}
+    if not opts.get("distributed_slack", True):
+        return _one_bypass(ctx, net, opts, T, case, net_js)
     err = None
     with _NormSpy(net) as spy:
         try:
@@ -200,8 +332,13 @@ def _one(ctx, rng, T, given=None, sample=False, force_pair=False):
     ctx.count("outcome_" + (err or "ok"))
     if spy.rec is not None:
         r = spy.rec
-        T["norm_t"].append(_norm_term(r["gens"], r["xws"], r["subs"], r["nb"]))
-        T["norm_p"].append((r["out"], case))
+        T["norm_t"].append(_norm_term(r["gens"], r["xws"], r["brs"], r["bt"]))
+        T["norm_p"].append((r["out"], [sorted(s_) for s_ in r["subs"]], case))
+        ctx.count("islands_%d" % min(len(r["subs"]), 3))
+        if any(t_ == 4 for t_ in r["bt"]):
+            ctx.count("ppc_has_out_of_service_buses")
+        if not r["bus_i_is_row"]:
+            ctx.count("ppc_BUS_I_differs_from_row_number")
         if not r["masks_agree"]:
             ctx.count("xward_mask_recomputed_differs")
     if err is not None:
@@ -209,8 +346,11 @@ def _one(ctx, rng, T, given=None, sample=False, force_pair=False):
             ctx.case({"net_sha": hashlib.sha1(net_js.encode()).hexdigest()}, nontrivial=False)
         return
     if err is None and "V" not in net._ppc["internal"]:
-        ctx.count("pf_bypassed_only_reference_buses")
+        # powerflow.py:158 excludes the bypass under distributed slack: never expected here
+        ctx.violation("spec", "distributed slack power flow returned without a solved voltage vector (solver bypassed)", case)
         return
+    if variant == "allref":
+        ctx.count("all_reference_buses_solver_not_bypassed")
     # observations of the solved net first (_pd2ppc below rebuilds net._ppc)
     if err is None:
         x = pf.extract(net)
@@ -333,25 +473,35 @@ def _corpus():
 
 def run(ctx, only=None):
     rng = ctx.rng
-    T = {k: [] for k in ("norm_t", "norm_p", "gen_t", "gen_p", "xw_t", "xw_p", "orc")}
+    T = {k: [] for k in ("norm_t", "norm_p", "gen_t", "gen_p", "xw_t", "xw_p", "orc", "byp_t", "byp_p")}
     idx_gen, idx_xw = [], []     # oracle index of each gen / xward comparison
     if only is None:
-        todo = [(g, False, False) for g in _corpus()] + \
-               [(None, k < 2, (False if k % 6 else ("ls2g" if k % 12 else True))) for k in range(ctx.n(100, 2500))]
+        def var(k):
+            if k % 8 == 3:
+                return "islands"
+            if k % 12 == 5:
+                return "allref" if k % 24 == 5 else "bypass"
+            return None
+        todo = [(g, False, False, None) for g in _corpus()] + \
+               [(None, k < 2, (False if k % 6 else ("ls2g" if k % 12 else True)), var(k)) for k in range(ctx.n(100, 2500))]
     else:
-        todo = [(g, True, False) for g in only]
-    for given, sample, force_pair in todo:
+        todo = [(g, True, False, None) for g in only]
+    for given, sample, force_pair, variant in todo:
         n0, x0 = len(T["gen_t"]), len(T["xw_t"])
-        _one(ctx, rng, T, given=given, sample=sample, force_pair=force_pair)
+        _one(ctx, rng, T, given=given, sample=sample, force_pair=force_pair, variant=variant)
         if len(T["gen_t"]) > n0:
             idx_gen.append(len(T["orc"]) - 1)
         if len(T["xw_t"]) > x0:
             idx_xw.append(len(T["orc"]) - 1)
     req = "Base.QN Base.QC C01.Model C10.Model"
     nm = ctx.coq_eval("c10n", req, T["norm_t"], shard=25, timeout=900) if T["norm_t"] else []
-    for (impl, case), m in zip(T["norm_p"], nm):
+    for (impl, isl_i, case), m in zip(T["norm_p"], nm):
         ctx.corr_checked += 1
-        mres, g10w = m
+        mres, g10w, isl_m, wf = m
+        if not wf:
+            ctx.disagreement("ppc branch rows point outside the bus table (wf_branches false)", case)
+        if [list(i_) for i_ in isl_m] != isl_i:
+            ctx.disagreement("_subnetworks: impl islands %r model %r" % (isl_i, isl_m), case)
         if not g10w:
             ctx.count("old_pairing_guard_G10w_false")
         if isinstance(impl, cq.Err) or isinstance(mres, cq.Err):
@@ -371,6 +521,14 @@ def run(ctx, only=None):
         gen_ok[oi] = not bad
         if bad:
             ctx.disagreement("distributed slack pfsoln: " + "; ".join(bad[:4]), case)
+    bm = ctx.coq_eval("c10b", req, T["byp_t"], shard=6, timeout=900) if T["byp_t"] else []
+    for (pg_i, pd_i, case), m in zip(T["byp_p"], bm):
+        ctx.corr_checked += 1
+        pg_m, pd_m = m
+        bad = ["gen row %d PG impl %r model %s" % (r, a, float(b)) for r, (a, b) in enumerate(zip(pg_i, pg_m)) if not pf.close(b, a, 1e-7, 1e-6)]
+        bad += ["bus %d PD after pfsoln impl %r model %s" % (k, a, float(b)) for k, (a, b) in enumerate(zip(pd_i, pd_m)) if not pf.close(b, a, 1e-7, 1e-6)]
+        if bad:
+            ctx.disagreement("bypassed power flow (pfsoln on setpoint voltages): " + "; ".join(bad[:4]), case)
     xm = ctx.coq_eval("c10x", req, T["xw_t"], shard=8, timeout=900) if T["xw_t"] else []
     for oi, (impl, case), m in zip(idx_xw, T["xw_p"], xm):
         ctx.corr_checked += 1
